@@ -280,7 +280,11 @@ def _check_hist(plan):
             got = {p: X["final"]["files"].get(W.mirror("in", "out", p)) for p in paths}
             compare("an undo run over the same tree earlier in the same process", got, paths)
         elif v == "dump" and o["ip"]:
-            X = W.run_world({"disk": _disk(plan), "procs": [{"knobs": plan["knobs"][3], "faults": [],
+            dk = _disk(plan)
+            if plan["seed"] % 2:
+                # the map path already holds a well-formed map of these very addresses, left by a run under another salt
+                dk["files"]["map"] = GC.stale_map(plan["files"], plan["seed"] & 0xFFFFF, plan["seed"] % 3).encode()
+            X = W.run_world({"disk": dk, "procs": [{"knobs": plan["knobs"][3], "faults": [],
                                                                "steps": [_step(plan, plan["entry"], "in", "out", dump="map")]}]})
             steps += X["procs"][0]["nsys"]
             digest_items.append(W.public_hist(X["procs"][0]))
